@@ -6,6 +6,8 @@
 import ClairModel.Model.Pep440
 import ClairModel.Proofs.Version
 
+set_option linter.unusedSimpArgs false
+
 namespace ClairModel.Pep440
 open ClairModel.Order ClairModel.Version
 
